@@ -115,3 +115,9 @@ package types
 //@   loop 0 invariant forall(k, 0, len(c.ImportedBridgeExits), c.ImportedBridgeExits[k] != nil && c.ImportedBridgeExits[k].BridgeExit != nil && c.ImportedBridgeExits[k].BridgeExit.TokenInfo != nil && c.ImportedBridgeExits[k].BridgeExit.Amount != nil && c.ImportedBridgeExits[k].GlobalIndex != nil && 0 <= bigval(c.ImportedBridgeExits[k].BridgeExit.Amount) && bigval(c.ImportedBridgeExits[k].BridgeExit.Amount) < 115792089237316195423570985008687907853269984665640564039457584007913129639936)
 //@   loop 0 invariant 0 <= rangeindex + 1 && len(chunks) == rangeindex + 1 && off(chunks) == 0 && fresh(ref(chunks))
 //@   loop 0 invariant forall(k, 0, rangeindex + 1, bytesOf(seq(chunks[k]), len(chunks[k])) == catB(catB(emptyB(), leB(giVal(c.ImportedBridgeExits[k].GlobalIndex.MainnetFlag, c.ImportedBridgeExits[k].GlobalIndex.RollupIndex, c.ImportedBridgeExits[k].GlobalIndex.LeafIndex))), bytesOf(hb(exitLeafValue(c.ImportedBridgeExits[k].BridgeExit.LeafType, c.ImportedBridgeExits[k].BridgeExit.TokenInfo.OriginNetwork, c.ImportedBridgeExits[k].BridgeExit.TokenInfo.OriginTokenAddress, c.ImportedBridgeExits[k].BridgeExit.DestinationNetwork, c.ImportedBridgeExits[k].BridgeExit.DestinationAddress, bigval(c.ImportedBridgeExits[k].BridgeExit.Amount), ite(len(c.ImportedBridgeExits[k].BridgeExit.Metadata) == 0, bytesOf(hb(keccak(emptyB())), 32), bytesOf(seq(c.ImportedBridgeExits[k].BridgeExit.Metadata), len(c.ImportedBridgeExits[k].BridgeExit.Metadata))))), 32)))
+
+// closed = not open (proved from IsOpen's contract)
+//@ func (c CertificateStatus) IsClosed
+//@   props C02 C13
+//@   modifies nothing
+//@   ensures result == !(c == Pending || c == Candidate || c == Proven)
